@@ -1667,8 +1667,8 @@ Definition ctor_okb (capacity : N) : bool :=
   let c := measure capacity in
   WFb c &&
   match construct c true with
-  | (Some s0, _) => (sz s0 =? capacity) && init_okb c (nodes s0)
-  | _ => false
+  | Some s0 => (sz s0 =? capacity) && init_okb c (nodes s0)
+  | None => false
   end.
 
 
@@ -1779,14 +1779,14 @@ Proof. vm_compute. reflexivity. Qed.
 
 Theorem ctor_start_upto : forall capacity l, capacity <= 1100 ->
   all_ready l -> (forall th, In th l -> theld th = []) ->
-  exists s0 ub, construct (measure capacity) true = (Some s0, ub) /\
-                Start (measure capacity) capacity (all_in_pool capacity) (mkState s0 l).
+  exists s0, construct (measure capacity) true = Some s0 /\
+             Start (measure capacity) capacity (all_in_pool capacity) (mkState s0 l).
 Proof.
   intros capacity l H R HE.
   pose proof (forall_range_spec _ _ ctor_sweep capacity ltac:(unfold ctor_bound; lia)) as OK.
   unfold ctor_okb in OK. apply andb_prop in OK. destruct OK as [W OK]. apply WFb_spec in W.
-  destruct (construct (measure capacity) true) as [[s0|] ub]; [|discriminate].
-  apply andb_prop in OK. destruct OK as [SZ OK]. exists s0, ub. split; [reflexivity|].
+  destruct (construct (measure capacity) true) as [s0|]; [|discriminate].
+  apply andb_prop in OK. destruct OK as [SZ OK]. exists s0. split; [reflexivity|].
   destruct s0 as [z m]. cbn [sz nodes] in *. assert (z = capacity) by lia. subst z.
   change capacity with (cap (measure capacity)) at 2 3 4. apply start_full; assumption.
 Qed.
